@@ -148,7 +148,11 @@ End == /\ E.ev = "End"
                    allRead |-> \A k \in Keys : k[2] < cfg.ns => rTotal[k] = wDone[PeerK(k)]]
        /\ UNCHANGED <<cfg, wBegun, wDone, closing, rTotal, nextSeq, txOff, first, contig, ahead>>
 
-Other == /\ E.ev \notin {"Begin", "Cfg", "Wb", "W", "R", "Cb", "Cr", "Tx", "Rx", "End"}
+Mark == /\ E.ev = "Mark"
+        /\ last' = [ev |-> "Mark", ok |-> E.ok, bound |-> E.n]
+        /\ UNCHANGED <<cfg, wBegun, wDone, closing, rTotal, nextSeq, txOff, first, contig, ahead>>
+
+Other == /\ E.ev \notin {"Begin", "Cfg", "Wb", "W", "R", "Cb", "Cr", "Tx", "Rx", "End", "Mark"}
          /\ last' = [ev |-> E.ev]
          /\ UNCHANGED <<cfg, wBegun, wDone, closing, rTotal, nextSeq, txOff, first, contig, ahead>>
 \* events about unknown sessions (s = -1) that are not Tx
@@ -158,7 +162,7 @@ Unattributed == /\ E.ev \in {"Wb", "W", "R", "Cb"} /\ ~Known(E)
 
 Next == /\ l <= Len(Trace)
         /\ l' = l + 1
-        /\ (Begin \/ Cfg \/ WriteBegin \/ WriteRet \/ ReadRet \/ CloseBegin \/ CloseRet \/ Tx \/ Rx \/ End
+        /\ (Begin \/ Cfg \/ WriteBegin \/ WriteRet \/ ReadRet \/ CloseBegin \/ CloseRet \/ Tx \/ Rx \/ End \/ Mark
             \/ Other \/ Unattributed)
 
 Spec == Init /\ [][Next]_vars
@@ -205,6 +209,9 @@ PadOK == (last.ev = "Tx" /\ last.decodable) =>
 
 \* C02 progress / completion, when the scenario expects it
 Completes == (last.ev = "End" /\ cfg.complete) => (last.ok /\ last.allRead)
+
+\* C02 progress: a programme point that must be reached within a virtual-time bound was reached in time
+OnTime == last.ev = "Mark" => last.ok
 
 \* nothing of a session we cannot attribute may be delivered to an application
 Attributed == last.ev = "unattributed" => (last.what = "R" /\ last.n = 0)
